@@ -602,9 +602,12 @@ impl<Tx: Debug + ProstMessage + Default, Rx: Debug + ProstMessage + Default> Cha
                     buffer.len(),
                     "available_data must equal the data slice length we validated against"
                 );
-                let message = Rx::decode(&buffer[delimiter_size()..message_len])
-                    .map_err(ChannelError::InvalidProtobufMessage)?;
+                let decoded = Rx::decode(&buffer[delimiter_size()..message_len]);
+                // The frame is consumed whether or not its payload decodes: an
+                // undecodable frame left at the head of the buffer would be
+                // re-read by every later call and wedge the channel forever.
                 let consumed = self.front_buf.consume(message_len);
+                let message = decoded.map_err(ChannelError::InvalidProtobufMessage)?;
                 // The whole frame (delimiter + payload) is consumed exactly:
                 // pair-assert that consume advanced by message_len and the data
                 // pointer moved forward by the same amount.
